@@ -462,6 +462,9 @@ func runReplay(w *world, j *judge, cs childSpec) error {
 		return runRevoke(w, j, cs)
 	case "keyperm":
 		return runKeyPerm(w, j, cs)
+	case "badentry-before", "badentry-after":
+		cs.N = 2
+		return runBadEntry(w, j, cs)
 	case "expired-repeat", "expired-repeat-after-clean":
 		cs.N = 20
 		return runExpiredTwice(w, j, cs)
